@@ -133,6 +133,14 @@ Definition sstep (s : list aval) (o : op) : list aval * out :=
     | Some _ => (set_nth s i unset, ODone)
     | None => (s, ORefused)
     end
+  (* the new name is a part of the current one: what was stored from [off] on *)
+  | OSetSelf i off len =>
+    match nth_error s i with
+    | Some v => let '(bs, l) := self_arg (snd v) off len in
+                let '(v', ok) := sset v (Some bs) l in
+                (set_nth s i v', if ok then ODone else ORefused)
+    | None => (s, ORefused)
+    end
   end.
 
 Definition sobs (s : list aval) : list slot_obs :=
